@@ -151,7 +151,15 @@ func (s *session) SignalSubscribe(pkt *mqttp.Subscribe) (mqttp.IFace, error) {
 		// V5.0
 		if t.ShareName() != "" {
 			if !s.sharedSubscriptions {
-				retCodes = append(retCodes, mqttp.CodeSharedSubscriptionNotSupported)
+				// 0x9E is a reason code of MQTT 5.0: an earlier version knows only "failure", and a SUBACK
+				// with a code it cannot carry was not sent at all (the connection was closed, after the
+				// other filters of the packet had been subscribed)
+				if s.version == mqttp.ProtocolV50 {
+					retCodes = append(retCodes, mqttp.CodeSharedSubscriptionNotSupported)
+				} else {
+					retCodes = append(retCodes, mqttp.QosFailure)
+				}
+
 				return nil
 			}
 		}
